@@ -1,5 +1,5 @@
 (** Proofs/UncTokProofs.v — the token rewriting of [uncertainty_tokenizer] (C19). *)
-From Coq Require Import Ascii String Qcabs Lia.
+From Coq Require Import Ascii String Qcabs Lia ZArith QArith Qpower.
 From PintV Require Import Model.UC Model.Eval Model.Registry Model.UncTok.
 Open Scope string_scope.
 Local Open Scope nat_scope.
@@ -486,4 +486,265 @@ Lemma tokens_example :
 Proof.
   cbv zeta. split; [vm_compute; reflexivity|]. split; [vm_compute; reflexivity|].
   split; [vm_compute; reflexivity|]. apply (bool_decide_unpack _). vm_compute. exact I.
+Qed.
+
+(** * powers of ten *)
+Lemma pow10_Qpower e : pow10 e = Q2Qc (Qpower (10 # 1) e).
+Proof.
+  destruct e as [|p|p]; unfold pow10.
+  - reflexivity.
+  - apply Q2Qc_eq_iff. change (10 # 1) with (inject_Z 10).
+    apply Zpower_Qpower. lia.
+  - apply Q2Qc_eq_iff.
+    change (Qpower (10 # 1) (Z.neg p)) with (/ Qpower (inject_Z 10) (Z.pos p))%Q.
+    rewrite <- (Zpower_Qpower 10 (Z.pos p)) by lia.
+    assert (H : (0 < 10 ^ Z.pos p)%Z) by (apply Z.pow_pos_nonneg; lia).
+    destruct (10 ^ Z.pos p)%Z as [|q|q] eqn:E; try lia.
+    reflexivity.
+Qed.
+Lemma Q2Qc_mult x y : Q2Qc (x * y) = (Q2Qc x * Q2Qc y)%Qc.
+Proof.
+  unfold Qcmult. apply Q2Qc_eq_iff. simpl. rewrite !Qred_correct. reflexivity.
+Qed.
+Lemma pow10_add a b : pow10 (a + b) = (pow10 a * pow10 b)%Qc.
+Proof.
+  rewrite !pow10_Qpower, <- Q2Qc_mult. apply Q2Qc_eq_iff.
+  apply Qpower_plus. discriminate.
+Qed.
+
+(** * reading digit strings *)
+Notation dz := digits_value.
+Lemma is_digit_digit_of a : is_digit a = true → ∃ d, digit_of a = Some d.
+Proof. unfold is_digit. destruct (digit_of a); [eauto | discriminate]. Qed.
+Lemma digit_not_underscore a : is_digit a = true → Ascii.eqb a "_" = false.
+Proof.
+  intros H. destruct (Ascii.eqb_spec a "_") as [->|]; [vm_compute in H; discriminate | reflexivity].
+Qed.
+
+(** reading [s ++ r] with [s] all digits continues on [r] *)
+Lemma read_digits_app s r acc n :
+  all_digits s = true →
+  read_digits (s ++ r) acc n
+  = read_digits r (read_digits s acc n).1.1 (read_digits s acc n).1.2.
+Proof.
+  revert acc n. induction s as [|a s IH]; intros acc n H; [reflexivity|].
+  simpl in H. apply andb_true_iff in H as [Ha Hs].
+  destruct (is_digit_digit_of a Ha) as [d Hd]. simpl. rewrite Hd. apply IH. exact Hs.
+Qed.
+Lemma read_digits_all s acc n :
+  all_digits s = true → (read_digits s acc n).2 = "" ∧ (read_digits s acc n).1.2 = (n + Z.of_nat (String.length s))%Z
+  ∧ (read_digits s acc n).1.1 = (acc * 10 ^ Z.of_nat (String.length s) + dz s)%Z.
+Proof.
+  unfold digits_value. revert acc n. induction s as [|a s IH]; intros acc n H.
+  - simpl. repeat split; lia.
+  - simpl in H. apply andb_true_iff in H as [Ha Hs].
+    destruct (is_digit_digit_of a Ha) as [d Hd]. cbn [read_digits]. rewrite Hd.
+    destruct (IH (acc * 10 + d)%Z (n + 1)%Z Hs) as (A & B & C).
+    destruct (IH (0 * 10 + d)%Z (0 + 1)%Z Hs) as (_ & _ & C0).
+    split; [exact A|]. split.
+    + rewrite B. cbn [String.length]. lia.
+    + rewrite C, C0. cbn [String.length]. rewrite Nat2Z.inj_succ, Z.pow_succ_r by lia. ring.
+Qed.
+(** a character that is neither a digit nor "_" stops the reader *)
+Definition stops (r : string) : Prop :=
+  match r with "" => True | String c _ => is_digit c = false ∧ Ascii.eqb c "_" = false end.
+Lemma read_digits_stop r acc n : stops r → read_digits r acc n = (acc, n, r).
+Proof.
+  destruct r as [|c r]; [reflexivity|]. intros [Hd Hu]. simpl.
+  unfold is_digit in Hd. destruct (digit_of c); [discriminate|]. rewrite Hu. reflexivity.
+Qed.
+Lemma read_digits_prefix s r acc n :
+  all_digits s = true → stops r →
+  read_digits (s ++ r) acc n
+  = ((acc * 10 ^ Z.of_nat (String.length s) + dz s)%Z, (n + Z.of_nat (String.length s))%Z, r).
+Proof.
+  intros Hs Hr. rewrite read_digits_app by exact Hs. rewrite read_digits_stop by exact Hr.
+  destruct (read_digits_all s acc n Hs) as (_ & B & C). rewrite B, C. reflexivity.
+Qed.
+
+(** * decimal literals with an optional exponent suffix *)
+Inductive esuffix := XNone | XDigits (ds : string) | XSigned (neg : bool) (ds : string).
+Definition esuffix_text (x : esuffix) : string :=
+  match x with
+  | XNone => ""
+  | XDigits ds => String "e" ds
+  | XSigned true ds => String "e" (String "-" ds)
+  | XSigned false ds => String "e" (String "+" ds)
+  end.
+Definition esuffix_val (x : esuffix) : Z :=
+  match x with
+  | XNone => 0%Z
+  | XDigits ds => dz ds
+  | XSigned neg ds => if neg then (- dz ds)%Z else dz ds
+  end.
+Definition esuffix_ok (x : esuffix) : bool :=
+  match x with XNone => true | XDigits ds | XSigned _ ds => nonempty_digits ds end.
+
+Lemma nonempty_digits_all ds : nonempty_digits ds = true → all_digits ds = true ∧ ds ≠ "".
+Proof. destruct ds; [discriminate|]. intros H. split; [exact H | discriminate]. Qed.
+Lemma length_pos_nonempty s : s ≠ "" → (0 < Z.of_nat (String.length s))%Z.
+Proof. destruct s; [contradiction|]. intros _. cbn [String.length]. lia. Qed.
+Lemma stops_suffix x : stops (esuffix_text x).
+Proof. destruct x as [|ds|[|] ds]; simpl; auto. Qed.
+
+(** what [parse_number] does once the mantissa digits have been read: [r2] is the suffix *)
+Lemma parse_tail mant nf x :
+  esuffix_ok x = true →
+  (let fin (e : Z) := Some (Q2Qc (inject_Z mant) * pow10 (e - nf))%Qc in
+   match esuffix_text x with
+   | EmptyString => fin 0%Z
+   | String c r =>
+       if Ascii.eqb c "e"%char || Ascii.eqb c "E"%char then
+         let '(sgn, r') := match r with
+                           | String "-"%char r' => ((-1)%Z, r')
+                           | String "+"%char r' => (1%Z, r')
+                           | _ => (1%Z, r) end in
+         let '(ev, ne, r'') := read_digits r' 0%Z 0%Z in
+         if (ne =? 0)%Z then None else
+         match r'' with EmptyString => fin (sgn * ev)%Z | _ => None end
+       else None
+   end) = Some (Q2Qc (inject_Z mant) * pow10 (esuffix_val x - nf))%Qc.
+Proof.
+  intros Hx. destruct x as [|ds|neg ds]; [reflexivity| |].
+  - (* e<digits>: the first digit is neither "-" nor "+" *)
+    simpl in Hx. destruct (nonempty_digits_all ds Hx) as [Ha Hn].
+    destruct (read_digits_all ds 0 0 Ha) as (A & B & C).
+    destruct ds as [|d ds']; [contradiction|]. simpl in Ha. apply andb_true_iff in Ha as [Hd _].
+    cbn [esuffix_text esuffix_val]. cbn beta iota. change (Ascii.eqb "e" "e") with true. cbn [orb].
+    assert (Hm : Ascii.eqb d "-" = false ∧ Ascii.eqb d "+" = false).
+    { split; [destruct (Ascii.eqb_spec d "-") as [->|] | destruct (Ascii.eqb_spec d "+") as [->|]];
+        try reflexivity; vm_compute in Hd; discriminate. }
+    destruct Hm as [Hm Hp].
+    assert (Hr : match String d ds' with
+                 | String "-"%char r' => ((-1)%Z, r')
+                 | String "+"%char r' => (1%Z, r')
+                 | _ => (1%Z, String d ds') end = (1%Z, String d ds')).
+    { destruct (Ascii.eqb_spec d "-"); [discriminate|]. destruct (Ascii.eqb_spec d "+"); [discriminate|].
+      destruct d as [[|] [|] [|] [|] [|] [|] [|] [|]]; try reflexivity; congruence. }
+    rewrite Hr. destruct (read_digits (String d ds') 0 0) as [[ev ne] r'']. simpl in A, B, C. subst.
+    unfold digits_value. 
+    replace ((0 + Z.of_nat (String.length (String d ds')) =? 0)%Z) with false
+      by (symmetry; apply Z.eqb_neq; cbn [String.length]; lia).
+    repeat f_equal. lia.
+  - simpl in Hx. destruct (nonempty_digits_all ds Hx) as [Ha Hn].
+    destruct (read_digits_all ds 0 0 Ha) as (A & B & C).
+    destruct neg; cbn [esuffix_text esuffix_val]; cbn beta iota; change (Ascii.eqb "e" "e") with true; cbn [orb];
+      destruct (read_digits ds 0 0) as [[ev ne] r'']; simpl in A, B, C; subst; unfold dz;
+      (replace ((0 + Z.of_nat (String.length ds) =? 0)%Z) with false
+         by (symmetry; apply Z.eqb_neq; pose proof (length_pos_nonempty ds Hn); lia));
+      repeat f_equal; lia.
+Qed.
+
+(** [parse_number] of digits[.digits] followed by an exponent suffix *)
+Lemma parse_number_int ip x :
+  nonempty_digits ip = true → esuffix_ok x = true →
+  parse_number (ip ++ esuffix_text x) = Some (Q2Qc (inject_Z (dz ip)) * pow10 (esuffix_val x - 0))%Qc.
+Proof.
+  intros Hip Hx. destruct (nonempty_digits_all ip Hip) as [Ha Hn].
+  unfold parse_number.
+  rewrite (read_digits_prefix ip (esuffix_text x) 0 0 Ha (stops_suffix x)).
+  cbn beta iota zeta.
+  replace (match esuffix_text x with String "."%char _ => _ | _ => _ end)
+    with ((0 * 10 ^ Z.of_nat (String.length ip) + dz ip)%Z, 0%Z, esuffix_text x)
+    by (destruct x as [|ds|[|] ds]; reflexivity).
+  cbn beta iota zeta.
+  replace ((0 + Z.of_nat (String.length ip) + 0 =? 0)%Z) with false
+    by (symmetry; apply Z.eqb_neq; pose proof (length_pos_nonempty ip Hn); lia).
+  replace (0 * 10 ^ Z.of_nat (String.length ip) + dz ip)%Z with (dz ip) by lia.
+  apply parse_tail. exact Hx.
+Qed.
+Lemma parse_number_dot ip fp x :
+  all_digits ip = true → all_digits fp = true → (ip ≠ "" ∨ fp ≠ "") → esuffix_ok x = true →
+  parse_number (ip ++ String "." (fp ++ esuffix_text x))
+  = Some (Q2Qc (inject_Z (dz ip * 10 ^ Z.of_nat (String.length fp) + dz fp))
+          * pow10 (esuffix_val x - Z.of_nat (String.length fp)))%Qc.
+Proof.
+  intros Hip Hfp Hne Hx. unfold parse_number.
+  rewrite (read_digits_prefix ip (String "." (fp ++ esuffix_text x)) 0 0 Hip) by (split; reflexivity).
+  cbn beta iota zeta.
+  rewrite (read_digits_prefix fp (esuffix_text x) _ 0 Hfp (stops_suffix x)).
+  cbn beta iota zeta.
+  replace ((0 + Z.of_nat (String.length ip) + (0 + Z.of_nat (String.length fp)) =? 0)%Z) with false.
+  2:{ symmetry. apply Z.eqb_neq. destruct Hne as [H|H]; pose proof (length_pos_nonempty _ H); lia. }
+  replace ((0 * 10 ^ Z.of_nat (String.length ip) + dz ip) * 10 ^ Z.of_nat (String.length fp) + dz fp)%Z
+    with (dz ip * 10 ^ Z.of_nat (String.length fp) + dz fp)%Z by ring.
+  replace (0 + Z.of_nat (String.length fp))%Z with (Z.of_nat (String.length fp)) by lia.
+  apply parse_tail. exact Hx.
+Qed.
+
+Lemma str_app_nil s : s ++ "" = s.
+Proof.
+  induction s as [|a s IH]; [reflexivity|]. change (String a (s ++ "") = String a s).
+  rewrite IH. reflexivity.
+Qed.
+
+(** the value of a decimal literal with an exponent suffix is the value without it times 10^e *)
+Theorem literal_with_exponent_int ip x :
+  nonempty_digits ip = true → esuffix_ok x = true →
+  ∃ qv, parse_number ip = Some qv
+      ∧ parse_number (ip ++ esuffix_text x) = Some (qv * pow10 (esuffix_val x))%Qc.
+Proof.
+  intros Hip Hx. exists (Q2Qc (inject_Z (dz ip)) * pow10 (0 - 0))%Qc. split.
+  - pose proof (parse_number_int ip XNone Hip eq_refl) as H. simpl in H. rewrite str_app_nil in H. exact H.
+  - rewrite (parse_number_int ip x Hip Hx). f_equal.
+    replace (esuffix_val x - 0)%Z with (0 - 0 + esuffix_val x)%Z by lia. rewrite pow10_add. ring.
+Qed.
+Theorem literal_with_exponent_dot ip fp x :
+  all_digits ip = true → all_digits fp = true → (ip ≠ "" ∨ fp ≠ "") → esuffix_ok x = true →
+  ∃ qv, parse_number (ip ++ String "." fp) = Some qv
+      ∧ parse_number (ip ++ String "." (fp ++ esuffix_text x)) = Some (qv * pow10 (esuffix_val x))%Qc.
+Proof.
+  intros Hip Hfp Hne Hx.
+  exists (Q2Qc (inject_Z (dz ip * 10 ^ Z.of_nat (String.length fp) + dz fp))
+          * pow10 (0 - Z.of_nat (String.length fp)))%Qc. split.
+  - pose proof (parse_number_dot ip fp XNone Hip Hfp Hne eq_refl) as H. simpl in H.
+    rewrite str_app_nil in H. exact H.
+  - rewrite (parse_number_dot ip fp x Hip Hfp Hne Hx). f_equal.
+    replace (esuffix_val x - Z.of_nat (String.length fp))%Z
+      with (0 - Z.of_nat (String.length fp) + esuffix_val x)%Z by lia.
+    rewrite pow10_add. ring.
+Qed.
+
+Lemma str_app_assoc a b c : (a ++ b) ++ c = a ++ (b ++ c).
+Proof.
+  induction a as [|x a IH]; [reflexivity|].
+  change (String x ((a ++ b) ++ c) = String x (a ++ (b ++ c))). rewrite IH. reflexivity.
+Qed.
+Definition esuffix_of (e : estyle) : esuffix :=
+  match e with ENone => XNone | EDigits ds => XDigits ds | ESigned _ neg ds => XSigned neg ds end.
+Lemma esuffix_of_spec e :
+  e_text e = esuffix_text (esuffix_of e) ∧ e_value e = esuffix_val (esuffix_of e)
+  ∧ exp_ok e = esuffix_ok (esuffix_of e).
+Proof. destruct e as [|ds|cap [|] ds]; repeat split; reflexivity. Qed.
+
+(** the texts [v ++ e] produced by the tokenizer denote v·10^e *)
+Theorem token_value_dot ip fp e :
+  all_digits ip = true → all_digits fp = true → (ip ≠ "" ∨ fp ≠ "") → exp_ok e = true →
+  ∃ qv, parse_number (ip ++ String "." fp) = Some qv
+      ∧ parse_number ((ip ++ String "." fp) ++ e_text e) = Some (qv * pow10 (e_value e))%Qc.
+Proof.
+  intros Hip Hfp Hne He. destruct (esuffix_of_spec e) as (T & V & O). rewrite O in He.
+  destruct (literal_with_exponent_dot ip fp (esuffix_of e) Hip Hfp Hne He) as (qv & A & B).
+  exists qv. split; [exact A|]. rewrite T, V, str_app_assoc. exact B.
+Qed.
+Theorem token_value_int ip e :
+  nonempty_digits ip = true → exp_ok e = true →
+  ∃ qv, parse_number ip = Some qv
+      ∧ parse_number (ip ++ e_text e) = Some (qv * pow10 (e_value e))%Qc.
+Proof.
+  intros Hip He. destruct (esuffix_of_spec e) as (T & V & O). rewrite O in He.
+  destruct (literal_with_exponent_int ip (esuffix_of e) Hip He) as (qv & A & B).
+  exists qv. split; [exact A|]. rewrite T, V. exact B.
+Qed.
+(** the [0.]-prefixed uncertainty of the short notation: u / 10^(number of digits of u) *)
+Theorem short_prefix_value u :
+  nonempty_digits u = true →
+  parse_number ("0." ++ u)
+  = Some (Q2Qc (inject_Z (dz u)) * pow10 (0 - Z.of_nat (String.length u)))%Qc.
+Proof.
+  intros Hu. destruct (nonempty_digits_all u Hu) as [Ha Hn].
+  pose proof (parse_number_dot "0" u XNone eq_refl Ha (or_intror Hn) eq_refl) as H.
+  simpl in H. rewrite str_app_nil in H.
+  change ("0." ++ u) with ("0" ++ String "." u). rewrite H.
+  change (dz "0") with 0%Z. rewrite Z.mul_0_l, Z.add_0_l. reflexivity.
 Qed.
